@@ -585,20 +585,10 @@ class CParser:
             tok_type, nested_paren = self._scan_declarator_name_info()
             if nested_paren:
                 saw_paren = True
-            depth = 1
-            while True:
-                tok = self._peek()
-                if tok is None:
-                    return None, saw_paren
-                if tok.type == "LPAREN":
-                    depth += 1
-                elif tok.type == "RPAREN":
-                    depth -= 1
-                    self._advance()
-                    if depth == 0:
-                        break
-                    continue
-                self._advance()
+            # The caller only needs the kind of the name token and rewinds
+            # afterwards, so there is no point in scanning on to the matching
+            # ')': doing so for every nesting level made the lookahead
+            # quadratic for declarators nested through parameter lists.
             return tok_type, saw_paren
         return None, saw_paren
 
